@@ -148,7 +148,7 @@ def run(chk: Check, model):
         inner = [k for k in allowed if q == k[0] or q.startswith(k[0] + ".")]
         key = next(((k0, k1) for (k0, k1) in allowed if (q == k0 or k0.startswith(q + ".") or q.startswith(k0)) and k1 == nm), None)
         # nested closures are indexed under their own qualname; ast.walk of the enclosing function sees them too
-        ok = any(k1 == nm and (q == k0 or k0.startswith(q + ".")) for k0, k1 in allowed)
+        ok = all(any(k1 == nm and (h == k0 or k0.startswith(h + ".")) for k0, k1 in allowed) for h in model.home_functions(q))
         seen.add((q, nm))
         chk.add("C08.writers", f"{q}:{nm}", ok, f"{nm}() is called in {q}: output buffers may only be written by the partition runner's update functions", chk.loc(fi, n))
     chk.floor("C08.writers", "buffer write sites", len(sites), 5)
@@ -158,7 +158,7 @@ def run(chk: Check, model):
     uos = [e for e in cv.run_generation.events if e.kind == "call" and e.name == "rex.partition_runner.update_output" and e.func == cv.fi("_run_generation").qualname]
     ok = len(uos) == 1 and tn is not None and len(uos[0].args) == 3 and uos[0].args[2] == T.mk_attr(tn, "seq")
     if ok:
-        st = [e for e in cv.run_generation.events if e.kind == "store_sub" and e.name.endswith("new_outputs")]
+        st = [e for e in cv.run_generation.events if e.kind == "store_sub" and e.term == uos[0].term]
         ok = len(st) == 1 and st[0].term == uos[0].term and uos[0].args[0] == T.mk_index(_buffer_base(uos[0].args[0]), st[0].key)
     chk.add("C08.writers", "_run_generation writes buffer[kind] at timings_node.seq", bool(ok), "the node's output must be stored into its own buffer at the slot's sequence number",
             chk.loc(cv.fi("_run_generation")))
@@ -257,7 +257,7 @@ def rule_sizes(chk: Check, model, rid: str):
     chk.used(f_ob.qualname)
     ev = SymEval(model)
     r = ev.run_function(f_ob)
-    st = [e for e in r.events if e.kind == "store_sub" and e.name == "buffers"]
+    st = [e for e in r.events if e.kind == "store_sub" and not e.name.startswith("self.") and any(x[0] == "call" and x[1] == "*" for x in T.walk(e.term))]
     ok = len(st) == 1
     if ok:
         lp = r.loops.get(st[0].loops[-1]) if st[0].loops else None
